@@ -300,6 +300,58 @@ def r05d(ctx, rep, cr):
             rep.violation('R05d', f, 'node-before-edges', f.loc(nd.line), 'the node record can be deleted without first collecting and deleting its incident edges')
 
 
+def r05e(ctx, rep, cr):
+    rep.rule('R05e', 'delete_node removes every incident edge record: in the sequential loop no path leads from the loop\'s next() → Some '
+                     'edge back to the loop head without passing store.delete(edge_key(id)); in the per-edge closure of the parallel branch '
+                     'no Ok return is reachable without passing it')
+    n = 0
+    for h in A.with_closures(cr.fns, GE + 'delete_node'):
+        hd = A.Defs(h)
+        dels = [c for c in A.calls_to(h, ('re', r'^tensor_store::TensorStore::delete$'))
+                if any(x.endswith('::edge_key') for x in A.backward_slice(h, [c.args[1]], hd).calls)]
+        if not dels:
+            continue
+        rep.analysed(h)
+        uses = A.Uses(h)
+        dbbs = {c.bb for c in dels}
+        loops = []
+        for c in A.calls(h):
+            if (re.search(r'Iterator>?::next$', c.generic) or re.search(r'Iterator>?::next$', c.resolved)) and c.bb in A.reachable(h, [c.target]) and any(d.bb in A.reachable(h, [c.target]) for d in dels):
+                loops.append(c)
+        if loops:
+            for c in loops:
+                n += 1
+                o = A.call_outcome(h, c, uses)
+                starts = [t for (_, t) in o.ok]
+                if not starts:
+                    rep.unresolved_instance('R05e', h, 'loop@%d' % c.bb, 'Some-edge of the loop iterator not recognised')
+                    continue
+                R = A.reachable(h, starts, cut_blocks=dbbs)
+                if c.bb in R:
+                    rep.violation('R05e', h, 'edge-record-kept', h.loc(c.line),
+                                  'an iteration of the edge loop can return to the loop head without deleting the edge record (a `continue` / '
+                                  'skipped branch): the edge outlives the node it was attached to and no node lists it')
+                else:
+                    rep.holds('R05e', h, 'every iteration deletes the edge record', '')
+        else:
+            n += 1
+            rets = lib.success_return_reachable(h, [0], cut_blocks=dbbs)
+            # an Ok return of the per-edge closure
+            ok_rets = []
+            for r in rets:
+                ok_rets.append(r)
+            if ok_rets and _returns_result(h):
+                rep.violation('R05e', h, 'edge-record-kept', h.loc(),
+                              'the per-edge closure can return Ok without deleting the edge record')
+            else:
+                rep.holds('R05e', h, 'Ok only after the edge record delete', '')
+    rep.floor('R05e', 'edge-deleting bodies of delete_node', n, 2)
+
+
+def _returns_result(h):
+    return h.locals[0].startswith('std::result::Result<') or h.locals[0].startswith('core::result::Result<')
+
+
 def run(ctx, rep):
     cr = ctx.crate('graph_engine')
     cg = ctx.callgraph(['graph_engine'])
@@ -307,3 +359,4 @@ def run(ctx, rep):
     r05b(ctx, rep, cr)
     r05c(ctx, rep, cr)
     r05d(ctx, rep, cr)
+    r05e(ctx, rep, cr)
